@@ -154,3 +154,25 @@ def run(ctx):
     r5.check(ok, f"{m.rel}:wait_promises.done", "settled inputs are not counted once each up to the input length", m.rel, wp.lineno)
     ok = "subpromise.then(done, done)" in src(wp) and any(isinstance(n, ast.If) and src(n.test) == "len(subpromises) == 0" for n in ast.walk(wp))
     r5.check(ok, f"{m.rel}:wait_promises:registration", "inputs are not registered for both outcomes or the empty case is missing", m.rel, wp.lineno)
+
+    # ---- C13.6 registration order under re-entrant registration -----------------------------
+    # then() on an already settled promise calls _notify() at once.  If that happens from inside a callback that the outer _notify() is running,
+    # the new callback is delivered by the nested call -- before the callbacks that were registered earlier and are still waiting in the outer
+    # loop.  Order is kept only if the nested call defers to the running one (a re-entrancy flag tested on entry) or the loop drains the live
+    # list in FIFO order itself.
+    r6 = ctx.rule("C13.6", "callbacks registered during notification are delivered after the ones registered before them", floor=1)
+    flags = set()
+    for n in ast.walk(nf):
+        if isinstance(n, ast.Assign) and isinstance(n.targets[0], ast.Attribute) and src(n.targets[0].value) == "self" and src(n.value) == "True":
+            flags.add(n.targets[0].attr)
+    guarded = any(isinstance(n, ast.If) and any(f"self.{f}" in src(n.test) for f in flags) and any(isinstance(b, ast.Return) for b in n.body) for n in nf.body)
+    drains = any(isinstance(n, ast.While) and ("_resolvers" in src(n) or "_rejectors" in src(n)) for n in ast.walk(nf))
+    nested_notify = any(call_name(c) == "self._notify" for c in calls_in(th, shallow=True))
+    r6.check(
+        (guarded and bool(flags)) or drains or not nested_notify,
+        f"{m.rel}:Promise._notify:reentrant-order",
+        "then() notifies immediately on a settled promise and _notify has no re-entrancy guard: p.then(a); p.then(b); p.do_resolve(1) with `a` calling p.then(c) runs a, c, b -- "
+        "c overtakes b although b was registered first",
+        m.rel,
+        nf.lineno,
+    )
